@@ -5,13 +5,17 @@
   suite) and quantify over all string functions `S` (camelCase / upper / split are opaque), all class
   trees, all mapper lists of any length, all instances of any nesting depth.
 
-  What the code violates (kept in the model, see the counterexample theorems and known findings):
-    * `fallback-capture`   — `get_processed_input` falls back to the unmapped field name;
-    * `dns-blocks-deserialize` — a class with a `DoNotSerialize` entry cannot be deserialized at all;
-    * `nested-resync`      — the deserializer re-aggregates a nested class's mappers from the override
-      it is handed and can resolve different keys than the serializer used.
+  What the code still violates (kept in the model, see the counterexample theorem and known finding):
+    * `nested-resync` — the deserializer re-aggregates a nested class's mappers from the override it
+      is handed and can resolve different keys than the serializer used.
+  Fixed in /repo and in the model: `fallback-capture` (f476845: no fallback to the unmapped field name
+  when that name is another field's key) and `dns-blocks-deserialize` (e74486a: a `DoNotSerialize`
+  entry no longer makes `get_processed_input` raise); `fallback_capture_fixed` /
+  `dns_deserialize_fixed` are the former counterexamples, now round-tripping, and `mapper_round_trip`
+  no longer has a `NoFallbackCapture` hypothesis.
   `C07_statement` is the full-strength round trip; `mapper_round_trip` is the `_partial` theorem whose
-  decidable hypotheses (`levelOK` at every level) exclude exactly these regions.
+  decidable hypotheses (`levelOK` at every level) exclude exactly the remaining region (`Sync` fails
+  at a nested level).
 -/
 import TypedpyModel.Lemmas.Mappers
 namespace Typedpy.C07
@@ -194,10 +198,11 @@ theorem rt_fld (S : StrFns) (camel : Bool) :
 end
 
 /-- **Round trip (partial statement).**  For every class tree, every resolved serializer mapper `ms`,
-    every override / flags, every instance of any nesting depth: if at every level the hypotheses
-    `levelOK` hold (Sync incl. no `DoNotSerialize` entry, NoDot, populated keys distinct, absent keys
-    free, NoFallbackCapture unless strict), deserializing the serialized document gives back the
-    instance. -/
+    every override / flags (`use_strict_mapping` on or off), every instance of any nesting depth: if
+    at every level the hypotheses `levelOK` hold — `Sync` (both sides resolve each field to the same
+    string key, or both to `DoNotSerialize` and the field is absent), `NoDot`, populated keys
+    distinct, absent fields' keys not populated — deserializing the serialized document gives back
+    the instance.  No `NoFallbackCapture` hypothesis is needed any more. -/
 theorem mapper_round_trip (S : StrFns) (camel : Bool) (c : Cls) (ms : MDict) (ov : Option MDict)
     (strict : Bool) (x : J) (h : rtCls S camel (levelOK S) c ms ov strict x = true) :
     deser S camel c ov strict (ser S camel ms x) = .ok x := by
@@ -218,6 +223,16 @@ theorem mapper_round_trip_serialize (S : StrFns) (camel : Bool) (c : Cls) (ov : 
     (h : rtCls S camel (levelOK S) c (aggregate S true c.own c.fields ov camel) ov strict x = true) :
     deser S camel c ov strict (serialize S camel c ov x) = .ok x :=
   mapper_round_trip S camel c _ ov strict x h
+
+/-- **No fallback capture.**  Under the level hypotheses an absent field reads nothing from the
+    serialized level — neither under its key nor under its own name — with or without
+    `use_strict_mapping` (before /repo f476845 this needed the extra hypothesis `NoFallbackCapture`). -/
+theorem absent_field_not_captured (S : StrFns) (camel : Bool) (ms M : MDict) (strict : Bool)
+    (kvs : List (String × J)) (hl : levelOK S ms M strict kvs = true) (f : String)
+    (hm : (f, J.null) ∈ kvs) :
+    procInput S M strict (serFields S camel ms kvs) f = .ok .null := by
+  have := procInput_ser S camel ms M strict kvs hl f .null hm
+  simpa [J.isNull] using this
 
 /-- the full-strength statement the property asks for: inside the demanded domain `levelDom` (no
     populated field dropped, no dotted key, populated keys distinct and different from absent fields'
@@ -254,38 +269,45 @@ theorem flat_rtFields (S : StrFns) (camel : Bool) (lv : LevelPred) (ms M : MDict
         simp only [rtFields, rtFld, and_true_iff']
         exact ⟨⟨h.1.1, h.1.2⟩, flat_rtFields S camel lv ms M fs rest hs.2 h.2⟩
 
+/-- a field's entry is a string key, or `DoNotSerialize` with the field absent -/
+def entryOK (m : MDict) (p : String × J) : Bool := isKeyAt m p.1 || (isDnsAt m p.1 && p.2.isNull)
+
 theorem syncOK_top (S : StrFns) (own : List Mapper) (fs : List Fld) (ov : Option MDict) (camel : Bool)
     (kvs : List (String × J))
-    (hk : ∀ p ∈ kvs, isKeyAt (aggregate S true own fs ov camel) p.1 = true) :
+    (hk : ∀ p ∈ kvs, entryOK (aggregate S true own fs ov camel) p = true) :
     syncOK (aggregate S true own fs ov camel) (aggregate S false own fs ov camel) kvs = true := by
   unfold syncOK
   rw [List.all_eq_true]
   intro p hp
   have e := ser_deser_same_field_keys S own fs ov camel p.1
   have h1 := hk p hp
-  have h2 : isKeyAt (aggregate S false own fs ov camel) p.1 = true := by
-    unfold isKeyAt at h1 ⊢; rw [← e]; exact h1
+  simp only [entryOK, Bool.or_eq_true, and_true_iff'] at h1
+  have hK : isKeyAt (aggregate S false own fs ov camel) p.1 = isKeyAt (aggregate S true own fs ov camel) p.1 := by
+    unfold isKeyAt; rw [e]
+  have hD : isDnsAt (aggregate S false own fs ov camel) p.1 = isDnsAt (aggregate S true own fs ov camel) p.1 := by
+    unfold isDnsAt; rw [e]
   have h3 : kOf (aggregate S false own fs ov camel) p.1 = kOf (aggregate S true own fs ov camel) p.1 := by
     unfold kOf; rw [e]
-  simp [h1, h2, h3]
+  rcases h1 with h1 | ⟨h1, h2⟩
+  · simp [hK, h1, h3]
+  · simp [hD, h1, h2]
 
 /-- **Flat classes, any hierarchy.**  For a class with scalar fields only and *any* list of mappers
-    (any inheritance depth, lists, enum mappers, override, `camel_case_convert`): if no field is mapped
-    to `DoNotSerialize`, no key is dotted, the populated keys are distinct and differ from absent
-    fields' keys, and no absent field's own name is a populated key (or `use_strict_mapping`), then
-    `deserialize(serialize(x)) = x`.  Sync is *proved* here, not assumed. -/
+    (any inheritance depth, lists, enum mappers, override, `camel_case_convert`, strict or not): if
+    every field is resolved to a string key or is an absent `DoNotSerialize` field, no key is dotted,
+    the populated keys are distinct and differ from absent fields' keys, then
+    `deserialize(serialize(x)) = x`.  `Sync` is *proved* here, not assumed. -/
 theorem flat_round_trip (S : StrFns) (camel : Bool) (c : Cls) (ov : Option MDict) (strict : Bool)
     (kvs : List (String × J))
     (hflat : allScalar c.fields = true) (hconf : flatConf c.fields kvs = true)
-    (hkeys : ∀ p ∈ kvs, isKeyAt (aggregate S true c.own c.fields ov camel) p.1 = true)
+    (hkeys : ∀ p ∈ kvs, entryOK (aggregate S true c.own c.fields ov camel) p = true)
     (hdot : noDotOK S (aggregate S true c.own c.fields ov camel) kvs = true)
     (hinj : injOK (aggregate S true c.own c.fields ov camel) kvs = true)
-    (habs : absentKeyOK (aggregate S true c.own c.fields ov camel) kvs = true)
-    (hcap : noCaptureOK (aggregate S true c.own c.fields ov camel) strict kvs = true) :
+    (habs : absentKeyOK (aggregate S true c.own c.fields ov camel) kvs = true) :
     deser S camel c ov strict (serialize S camel c ov (.obj kvs)) = .ok (.obj kvs) := by
   apply mapper_round_trip_serialize
   simp only [rtCls, levelOK, and_true_iff']
-  exact ⟨⟨⟨⟨⟨syncOK_top S c.own c.fields ov camel kvs hkeys, hdot⟩, hinj⟩, habs⟩, hcap⟩,
+  exact ⟨⟨⟨⟨syncOK_top S c.own c.fields ov camel kvs hkeys, hdot⟩, hinj⟩, habs⟩,
     flat_rtFields S camel _ _ _ c.fields kvs hflat hconf⟩
 
 /-! ### wrapper validation -/
@@ -311,7 +333,7 @@ theorem good_mapper_keys_accepted (S : StrFns) (names keys : List String)
   obtain ⟨hd, t, hs, hm⟩ := h k hk
   simp [hs, hm]
 
-/-! ### kernel-checked counterexamples (the known findings) and non-vacuity -/
+/-! ### kernel-checked examples: the two fixed findings, the open finding, non-vacuity -/
 
 /-- string functions without any string computation: enough for the counterexamples -/
 def idFns : StrFns := ⟨id, id, fun s => [s]⟩
@@ -321,40 +343,39 @@ def swInst : J := .obj [("a", .null), ("b", .int 2)]
 
 def isOkEq (r : DR J) (f : J → Bool) : Bool := match r with | .ok y => f y | .error _ => false
 def isErr (r : DR J) : Bool := match r with | .ok _ => false | .error _ => true
-def fieldIs (n : String) (i : Int) (y : J) : Bool :=
-  match y with
-  | .obj kvs => (match lookupR n kvs with | some (.int j) => i == j | _ => false)
-  | _ => false
+def jEq : J → J → Bool
+  | .obj [("a", .null), ("b", .int i)], .obj [("a", .null), ("b", .int j)] => i == j
+  | _, _ => false
 
-/-- finding `fallback-capture`: mapper `{'a':'b','b':'a'}`, `a` optional and absent: `Sw(b=2)` is in
-    the demanded domain (injective, nothing dropped, no dot), serializes to `{'a': 2}` and deserializes
-    to `Sw(a=2, b=2)`. -/
-theorem fallback_capture_counterexample :
-    rtCls idFns false (levelDom idFns) swCls (aggregate idFns true swCls.own swCls.fields none false)
+/-- former finding `fallback-capture` (fixed by /repo f476845): mapper `{'a':'b','b':'a'}`, `a`
+    optional and absent: `Sw(b=2)` serializes to `{'a': 2}` and, *without* `use_strict_mapping`, now
+    deserializes to `Sw(b=2)` again; the instance satisfies the hypotheses of `mapper_round_trip`. -/
+theorem fallback_capture_fixed :
+    rtCls idFns false (levelOK idFns) swCls (aggregate idFns true swCls.own swCls.fields none false)
         none false swInst = true
     ∧ isOkEq (.ok (serialize idFns false swCls none swInst))
         (fun d => match d with | .obj [("a", .int 2)] => true | _ => false) = true
     ∧ isOkEq (deser idFns false swCls none false (serialize idFns false swCls none swInst))
-        (fun y => fieldIs "a" 2 y && fieldIs "b" 2 y) = true := by
-  decide
-
-/-- with `use_strict_mapping` the same instance round-trips (the hypotheses of `mapper_round_trip`
-    hold and are not vacuous) -/
-theorem strict_mapping_no_capture_example :
-    rtCls idFns false (levelOK idFns) swCls (aggregate idFns true swCls.own swCls.fields none false)
-        none true swInst = true
-    ∧ isOkEq (deser idFns false swCls none true (serialize idFns false swCls none swInst))
-        (fun y => fieldIs "b" 2 y && !fieldIs "a" 2 y) = true := by
+        (fun y => jEq y swInst) = true := by
   decide
 
 def dnCls : Cls := ⟨[.dict [(.fld "a", .dns)]], [.scalar "a" true, .scalar "b" false]⟩
 
-/-- finding `dns-blocks-deserialize`: `a` mapped to `DoNotSerialize`, optional and absent — no field
-    is dropped, the instance is in the demanded domain, yet deserialization raises. -/
-theorem dns_blocks_deserialize_counterexample :
-    rtCls idFns false (levelDom idFns) dnCls (aggregate idFns true dnCls.own dnCls.fields none false)
+/-- former finding `dns-blocks-deserialize` (fixed by /repo e74486a): `a` mapped to `DoNotSerialize`,
+    optional and absent — the class can be deserialized and the instance round-trips; it satisfies the
+    hypotheses of `mapper_round_trip` (the `DoNotSerialize` case of `Sync`). -/
+theorem dns_deserialize_fixed :
+    rtCls idFns false (levelOK idFns) dnCls (aggregate idFns true dnCls.own dnCls.fields none false)
         none false swInst = true
-    ∧ isErr (deser idFns false dnCls none false (serialize idFns false dnCls none swInst)) = true := by
+    ∧ isOkEq (deser idFns false dnCls none false (serialize idFns false dnCls none swInst))
+        (fun y => jEq y swInst) = true := by
+  decide
+
+/-- a populated `DoNotSerialize` field is dropped, so the instance is outside the demanded domain
+    (no round trip is claimed) -/
+theorem dns_populated_outside_domain :
+    rtCls idFns false (levelDom idFns) dnCls (aggregate idFns true dnCls.own dnCls.fields none false)
+        none false (.obj [("a", .int 1), ("b", .int 2)]) = false := by
   decide
 
 /-- `upper` on the three keys of the example -/
@@ -379,9 +400,9 @@ theorem nested_resync_counterexample :
 /-- the full-strength statement is false of the model (and, by correspondence, of the code) -/
 theorem C07_statement_false : ¬ C07_statement := by
   intro h
-  have h1 := fallback_capture_counterexample
-  have h2 := h idFns false swCls none false swInst h1.1
-  have h3 := h1.2.2
+  have h1 := nested_resync_counterexample
+  have h2 := h upFns false topCls none false topInst h1.1
+  have h3 := h1.2
   rw [h2] at h3
   revert h3
   decide
